@@ -58,7 +58,7 @@ LEVEL_TEXT = ("Sampled paths x verbs x server configurations; each case observes
 LEVEL_NOTE = ("Trusts the enforcing transport (self-tested in every run by the "
               "'interlock' kind against direct and chroot-level escapes) and "
               "realpath.")
-REGISTERED = False
+REGISTERED = True
 NONTRIVIAL_FLOOR = {"quick": 600, "thorough": 20000}
 
 SECRET = b"VF-CANARY-7f3a9c-secret-content"
